@@ -229,6 +229,7 @@ static long ptr_id(void* p)
 }
 
 static bool g_logger_check_parks = false;
+static thread_local int tl_imm = 0;     // 1: inside an immediate-flush log call, 2: its internal flush has started
 // ------------------------------------------------------------------ hooks
 extern "C" void quill_verif_point(int id, void const* p)
 {
@@ -244,6 +245,8 @@ extern "C" void quill_verif_point(int id, void const* p)
   if (id == 7)
   {
     if (lt != &g_backend) { Ev e{"Commit"}; e.s("t", lt->name).u("now", vs::g_vunits.load()); }
+    // an immediate-flush call: its internal flush_log() starts here (only the inner flush request reaches this hook a second time)
+    if (lt != &g_backend && tl_imm == 1) { tl_imm = 2; Ev e{"FlushCall"}; e.s("t", lt->name).s("lg", "-"); }
     return;
   }
   if (id == 10)
@@ -401,7 +404,7 @@ static void op_log(vs::LT* lt, VLogger* lg, std::map<std::string, std::string> a
   int ret = -1;   // -1 unknown (macro), 0 false, 1 true, 2 = filtered by logger level
   {
     std::lock_guard<std::mutex> l{g_expm};
-    if (kind == "direct" || kind == "dyn" || kind == "macro" || kind == "dynmacro" || kind == "named")
+    if (kind == "direct" || kind == "dyn" || kind == "macro" || kind == "dynmacro" || kind == "named" || kind == "imm")
       g_expected[id] = "m" + std::to_string(id) + " " + padstr;
     else if (kind == "cstr") g_expected[id] = "m" + std::to_string(id) + " " + padstr + " " + std::to_string(id * 7);
     else if (kind == "bombok") g_expected[id] = "m" + std::to_string(id) + " " + padstr + " bomb";
@@ -437,6 +440,17 @@ static void op_log(vs::LT* lt, VLogger* lg, std::map<std::string, std::string> a
       // same shape as the macro, keeping log_statement's return value
       if (lg->should_log_statement(static_cast<LogLevel>(lvl)))
         ret = lg->template log_statement<false, false>(LogLevel::None, md_for(lvl), argeval(id), padstr) ? 1 : 0;
+      else
+        ret = 2;
+    }
+    else if (kind == "imm")
+    {
+      // QUILL_IMMEDIATE_FLUSH: the log call itself flushes before it returns
+      if (lg->should_log_statement(static_cast<LogLevel>(lvl)))
+      {
+        tl_imm = 1;
+        ret = lg->template log_statement<true, false>(LogLevel::None, md_for(lvl), argeval(id), padstr) ? 1 : 0;
+      }
       else
         ret = 2;
     }
@@ -495,6 +509,16 @@ static void op_log(vs::LT* lt, VLogger* lg, std::map<std::string, std::string> a
     e.s("t", lt->name).i("id", id).i("ret", ret).i("argevals", g_argevals - ev0).b("threw", threw);
     if (threw) e.s("what", what.substr(0, 60));
     (void)w0;
+  }
+  bool const imm_flushed = (tl_imm == 2);
+  tl_imm = 0;
+  if (kind == "imm" && ret == 1 && !threw && imm_flushed)
+  {
+    // the promise of an immediate-flush call, in the contract's vocabulary: a flush_log() that started right after the commit
+    // (FlushCall emitted at that hook) and returned when the call returned - everything this thread logged before, and this
+    // statement, is written and flushed
+    { Ev e{"FlushRet"}; e.s("t", lt->name).s("lg", lg->get_logger_name()); }
+    for (auto const& [fs, path] : g_filesinks) { Ev e{"FileRead"}; e.s("t", lt->name).s("s", fs).raw("ids", file_ids_json(path)); }
   }
 }
 
